@@ -72,10 +72,18 @@ fn utf8(d: &[char]) -> String {
 /// expression printed in Top context
 fn choice_of(e: &Expr) -> String {
     let arms: Vec<String> = match e {
-        Expr::Choice(v) if v.len() >= 2 => v.iter().map(seq_of).collect(),
+        Expr::Choice(v) if v.len() >= 2 => v.iter().map(arm_of).collect(),
         other => vec![seq_of(other)],
     };
     format!("Choice {{ choices: [{}] }}", arms.join(", "))
+}
+
+/// one of several alternatives: an empty sequence is written as nothing and read as a sequence without parts
+fn arm_of(e: &Expr) -> String {
+    match e {
+        Expr::Seq(v) if v.is_empty() => "Sequence { parts: [] }".to_string(),
+        other => seq_of(other),
+    }
 }
 
 /// expression printed as an arm
@@ -91,6 +99,7 @@ fn seq_of(e: &Expr) -> String {
 fn paren_body(e: &Expr) -> String {
     match e {
         Expr::Seq(v) => format!("Choice {{ choices: [Sequence {{ parts: [{}] }}] }}", v.iter().map(delim_of).collect::<Vec<_>>().join(", ")),
+        Expr::Choice(v) if v.len() >= 2 => format!("Choice {{ choices: [{}] }}", v.iter().map(arm_of).collect::<Vec<_>>().join(", ")),
         Expr::Choice(v) => format!("Choice {{ choices: [{}] }}", v.iter().map(seq_of).collect::<Vec<_>>().join(", ")),
         _ => unreachable!(),
     }
